@@ -198,6 +198,7 @@ def run_json(case, acc, order):
         try:
             # the file already exists with other, longer content: a save replaces it entirely
             save_json(path, {'zzz': list(range(40)), 'k': 'x' * 300})
+            load_json(path)
             save_json(path, data)
             back = load_json(path)
         except Exception as e:
@@ -377,6 +378,7 @@ def run_table(case, acc, order):
             if prec != 4:
                 kwargs['n_significant_figures'] = prec
             write_tsv(path, [{'cluster_id': 9, 'a': 'old', 'b': 'y' * 200, 'zz': 1}] * 3)   # stale content
+            read_tsv(path)         # ... which has been read once (write, read, write, read on one path)
             write_tsv(path, rows, **kwargs)
             back = read_tsv(path)
             header = path.read_text(encoding='utf-8').split('\n')[0].rstrip('\r')
@@ -448,6 +450,7 @@ def run_simple(case, acc, order):
         path = d / ('cluster_f.' + case['ext'])
         try:
             _write_tsv_simple(path, 'g', {i: 'stale' * 20 for i in range(6)})     # stale content
+            _read_tsv_simple(path)
             _write_tsv_simple(path, 'f', data)
             back = _read_tsv_simple(path)
         except Exception as e:
@@ -530,6 +533,7 @@ def run_params(case, acc, order):
         path = d / 'params.py'
         try:
             write_python(path, {'old_key': 'x' * 300, 'other': [1, 2, 3]})    # stale content
+            read_python(path)
             write_python(path, data)
             back = read_python(path)
         except Exception as e:
